@@ -12,6 +12,14 @@ op `table`, so that generator and theorems share one table):
           and debug mode through `Shelxfile(verbose=, debug=).read_string`.
           Every file carries sentinel atoms, a sentinel restraint, HKLF, END, a suggested WGHT and a Q-peak AFTER
           the instruction under test.
+  header  HISTORIES of header lines: every path through the header grammar of the specification (`Slot.next`, exported
+          by the driver: TITL CELL ZERR LATT SYMM* NEUT? SFAC+ DISP* UNIT) with every repeatable slot taken 0/1/2/3 times,
+          the forms of each keyword rotated over the repetitions, body instructions interspersed in front of SFAC.
+  layout  the PHYSICAL layout of a valid line: wrapped with `=` behind the keyword / in the middle / before the last
+          token / twice, blanks and tabs behind the `=`, a `!` comment (also one containing or ending with `=`) behind
+          the `=` or at the end of an unwrapped line, trailing blanks/tabs, wide continuation indent, CRLF line ends —
+          for every keyword (longest form) and every atom shape, on the line under test or on every line of the file,
+          plus random layouts of random valid lines.  The expectation is unchanged: layout is not content.
   near    each valid line with one token dropped / one token of another lexical class (quiet mode): these
           are not valid input; only the model correspondence and "quiet never raises" are judged.
   mutant  byte / token / line mutations of valid files, quiet mode: `read_string` must never raise.
@@ -193,36 +201,42 @@ def build2(case):
             for d in default_lines:
                 add(d)
 
-    slot('titl', [['TITL', 'c02', kw, 'in', 'P2(1)']])
-    slot('cell', [['CELL', '0.71073', '10.1', '11.2', '12.3', '90', '95.5', '90']])
-    slot('zerr', [['ZERR', '4', '0.001', '0.002', '0.003', '0', '0.01', '0']])
-    slot('latt', [['LATT', '-1']])
-    if pos == 'symm':
-        add(line, 'test')
-    elif case.get('symm', True):
-        add(['SYMM', '-x,', '1/2+y,', '-z'])
-    if pos == 'neut':
-        add(line, 'test')
-    if pos == 'pre':
-        add(line, 'test')
-    if pos == 'sfac':
-        add(line, 'test')
+    if pos == 'header':        # a whole header history (TITL ... UNIT), every line of it under test
+        for hl in case['header']:
+            add(hl, 'test')
     else:
-        add(['SFAC'] + els)
-    if pos == 'disp':
-        add(line, 'test')
-    if pos == 'unit':
-        add(line, 'test')
-    else:
-        add(['UNIT'] + ['8', '16', '4', '2'][:nsf])
+        slot('titl', [['TITL', 'c02', kw, 'in', 'P2(1)']])
+        slot('cell', [['CELL', '0.71073', '10.1', '11.2', '12.3', '90', '95.5', '90']])
+        slot('zerr', [['ZERR', '4', '0.001', '0.002', '0.003', '0', '0.01', '0']])
+        slot('latt', [['LATT', '-1']])
+        if pos == 'symm':
+            add(line, 'test')
+        elif case.get('symm', True):
+            add(['SYMM', '-x,', '1/2+y,', '-z'])
+        if pos == 'neut':
+            add(line, 'test')
+        if pos == 'pre':
+            add(line, 'test')
+        if pos == 'sfac':
+            add(line, 'test')
+        else:
+            add(['SFAC'] + els)
+        if pos == 'disp':
+            add(line, 'test')
+        if pos == 'unit':
+            add(line, 'test')
+        else:
+            add(['UNIT'] + ['8', '16', '4', '2'][:nsf])
     add(['REM', 'c02', 'by-construction', 'file'])
     add(['REM', 'sentinels', 'follow', 'the', 'line', 'under', 'test'])
     if pos == 'instr':
-        place(line, 'test')
+        for _ in range(case.get('repeat', 1)):      # the same instruction several times in a row (what its handler leaves behind)
+            place(line, 'test')
     add(['L.S.', '10'])
     add(['PLAN', '5'])
     if pos == 'fvar':
-        add(line, 'test')
+        for _ in range(case.get('repeat', 1)):
+            add(line, 'test')
     else:
         add(['FVAR', '0.51234', '0.61234', '0.71234'])
     add(atom_line('C1', 1, 1), 'atom:C1')
@@ -257,15 +271,56 @@ def build2(case):
     return L, F
 
 
-def render(lines, wrap=False, files=None):
+def layout_line(toks, lay):
+    """one logical line in the physical layout `lay`: wraps = token indices in front of which the line is broken with `=`,
+    tails = what follows each `=` on its physical line, trail = what follows the last token, indent = what the
+    continuation lines begin with (at least one blank), ctrail = what follows the tokens of a continuation line that is
+    not the last one ... (all of it layout: SHELXL and the property see the same instruction)"""
+    n = len(toks)
+    cuts = []
+    for w in lay.get('wraps', []):
+        k = dict(first=1, mid=(n + 1) // 2, last=n - 1, third=max(1, n // 3), twothirds=max(2, (2 * n) // 3)).get(w, w)
+        if isinstance(k, int) and 1 <= k < n and k not in cuts:
+            cuts.append(k)
+    cuts.sort()
+    tails = lay.get('tails', ['']) or ['']
+    segs = []
+    prev = 0
+    for k in cuts + [n]:
+        segs.append(toks[prev:k])
+        prev = k
+    out = []
+    sep = lay.get('sep', '  ')
+    for i, seg in enumerate(segs):
+        if i == 0:
+            txt = seg[0].ljust(4) + (' ' + sep.join(seg[1:]) if len(seg) > 1 else '')
+        else:
+            txt = lay.get('indent', '    ') + sep.join(seg)
+        if i < len(segs) - 1:
+            txt += ' =' + tails[i % len(tails)]
+        else:
+            txt += lay.get('trail', '')
+        out.append(txt)
+    return out
+
+
+def no_layout(toks):
+    """lines whose text is free text or a file name: `=` is not a continuation mark there"""
+    return not toks or toks[0].upper()[:4] in ('TITL', 'REM') or toks[0].startswith('+')
+
+
+def render(lines, wrap=False, files=None, layout=None, ambient=False, target=None):
     """-> (text of the spliced line list, first physical line index per logical line, number of physical lines)
-    and, with `files` (parallel list of file names), additionally {file name: its text}"""
+    and, with `files` (parallel list of file names), additionally {file name: its text}.
+    `layout`: physical layout (see layout_line) of the lines whose role is in `target` — of every line with `ambient`."""
     phys = []
     first = []
     per = {}
     for n, (toks, role) in enumerate(lines):
         first.append(len(phys))
-        if wrap and role.startswith('atom:') and len(toks) >= 12:
+        if layout is not None and not no_layout(toks) and (ambient or role in (target or ('test',))):
+            new = layout_line(toks, layout)
+        elif wrap and role.startswith('atom:') and len(toks) >= 12:
             new = [' '.join(toks[:8]) + ' =', '    ' + ' '.join(toks[8:])]
         elif toks and toks[0] == 'TITL':
             new = [' '.join(toks)]
@@ -274,10 +329,16 @@ def render(lines, wrap=False, files=None):
         phys += new
         if files is not None:
             per.setdefault(files[n], []).extend(new)
-    text = '\n'.join(phys) + '\n'
+    nl = '\r\n' if layout is not None and layout.get('crlf') else '\n'
+    text = nl.join(phys) + nl
     if files is not None:
-        return text, first, len(phys), {k: '\n'.join(v) + '\n' for k, v in per.items()}
+        return text, first, len(phys), {k: nl.join(v) + nl for k, v in per.items()}
     return text, first, len(phys)
+
+
+def render_case(case, lines, fl=None):
+    target = ('test', 'atom:' + case['kw'].upper()[:4]) if case['pos'] == 'atomline' else ('test',)
+    return render(lines, wrap=case.get('wrap', False), files=fl, layout=case.get('layout'), ambient=case.get('ambient', False), target=target)
 
 
 def kw_of_line(toks):
@@ -370,7 +431,7 @@ def _evaluate(ctx, cases, workdir):
             built.append(([], case.get('text'), [], 0, None))
             continue
         lines, fl = build2(case)
-        text, first, nphys, per = render(lines, wrap=case.get('wrap', False), files=fl)
+        text, first, nphys, per = render_case(case, lines, fl)
         built.append((lines, text, first, nphys, per if case.get('via') in ('file', 'include', 'nested') else None))
         if case['stream'] != 'mutant':
             fs = forms_of(lines)
@@ -401,6 +462,8 @@ def _evaluate(ctx, cases, workdir):
         fd = form_desc(kinds)
         if case['pos'] == 'atomline':      # signature classes of atom lines: number of columns, coded coordinate or not
             fd = f'cols={len(kinds) + 1}' + ('|coded-coordinate' if 'big' in kinds[1:4] else '')
+        if case['pos'] == 'header':
+            kw, fd = 'HEADER', case['hist']
         if case['pos'] == 'frag':
             far = any(abs(float(x)) > 4 for l in case['block'][1:-1] for x in l[2:5])
             fd = ('short' if len(kinds) <= 1 else 'cell') + ('|coordinate-beyond-4' if far else '')
@@ -411,14 +474,16 @@ def _evaluate(ctx, cases, workdir):
         want_atoms = [r.split(':', 1)[1] for _, r in lines if r.startswith('atom:')]
         sent = set(want_atoms)
         last = nphys - 1
-        ctx.count([st, case.get('kwtext', case['kw']), case['toks'], case['pos'], case.get('symm', True), case.get('wrap', False), case.get('via')],
+        ctx.count([st, case.get('kwtext', case['kw']), case['toks'], case['pos'], case.get('symm', True), case.get('wrap', False), case.get('via'),
+                   case.get('header'), case.get('layout'), case.get('ambient'), case.get('repeat')],
                   nontrivial=acc['branch'] not in ('none', 'else') or case['pos'] == 'frag',
-                  tags=[st, 'kw:' + kw, 'pos:' + case['pos'], 'spelling:' + case.get('spell', 'plain'), 'via:' + case.get('via', 'read_string'), 'branch:' + acc['branch'][:24], 'nparams:%d' % len(kinds)] +
+                  tags=[st, 'kw:' + kw, 'pos:' + case['pos'], 'spelling:' + case.get('spell', 'plain'), 'via:' + case.get('via', 'read_string'), 'layout:' + case.get('lname', 'plain'), 'branch:' + acc['branch'][:24], 'nparams:%d' % len(kinds)] +
                        ['impl-inner:%s' % family(obs['quiet']['inner'])],
                   sample=dict(stream=st, line=' '.join([case.get('kwtext', case['kw'])] + case['toks']), pos=case['pos'], impl=obs['quiet'],
                               model=models['quiet']) if len(kinds) > 2 else None)
         payload = dict(case=case, stream=st, text=text, actual=obs, model=models)
-        base = f'C02|kw={kw}|form={fd}' + (f'|{case["spell"]}' if case.get('spell') else '') + (f'|via={case["via"]}' if case.get('via') else '')
+        base = f'C02|kw={kw}|form={fd}' + (f'|{case["spell"]}' if case.get('spell') else '') + (f'|via={case["via"]}' if case.get('via') else '') \
+            + (f'|layout={case["lname"]}' + ('|every-line' if case.get('ambient') else '') if case.get('layout') is not None else '')
         # ---- correspondence: implementation vs model (parseAll), every mode that ran --------------------------
         for m in modes:
             o, mo = obs[m], models[m]
@@ -472,8 +537,12 @@ def _evaluate(ctx, cases, workdir):
             o = obs[ms[0]]
             msel = 'all' if len(ms) == 3 else '+'.join(ms)
             lost = [a for a in want_atoms if a not in [x.upper() for x in o['atoms']]]
+            shown = " ".join([case.get("kwtext", case["kw"])] + case["toks"])
+            if case['pos'] == 'header':     # name the header line the parse stopped on, and what stood before it
+                at = max(i for i, f in enumerate(first) if f <= min(o['errline'], first[-1]))
+                shown = ' / '.join(' '.join(t) for t, _ in lines[max(0, at - 2):at + 1])
             ctx.fail(f'{base}|{kind}|modes={msel}',
-                     f'valid `{" ".join([case.get("kwtext", case["kw"])] + case["toks"])}` ({case["pos"]}) in {msel} mode(s): {kind}; '
+                     f'valid `{shown}` ({case["pos"]}' + (f', layout {case["lname"]}' if case.get('layout') is not None else '') + f') in {msel} mode(s): {kind}; '
                      f'parse stopped at line {o["errline"] + 1} of {nphys}; atoms not recognised: {lost}', payload)
         if not bad_modes:
             a = [(obs[m]['atoms'], obs[m]['restraint'], obs[m]['restraint2'], obs[m]['hklf'], obs[m]['end'], obs[m]['wght'], obs[m]['errline']) for m in MODES]
@@ -635,10 +704,175 @@ def atom_tokens(kinds):
     return out
 
 
+# ----------------------------------------------------------------------------------------------------------------
+# histories of header lines (the parser remembers the header: `lastcard`, truthy attributes)
+
+ELEMENTS = ['C', 'H', 'O', 'N', 'S', 'P', 'F', 'B']
+PRE_INSTR = [['MORE', '3'], ['REM', 'between', 'header', 'lines'], ['TEMP', '-100'], ['SIZE', '0.1', '0.2', '0.3'], ['MORE']]
+HEADER_REP = 3      # every repeatable slot is taken up to this many times
+
+
+def header_paths(gram):
+    """every path TITL ... UNIT through the grammar of the specification with each slot visited at most HEADER_REP times"""
+    nxt = {g['slot']: g['next'] for g in gram}
+    out = []
+
+    def walk(path):
+        if path[-1] == 'unit':
+            out.append(list(path))
+            return
+        for n in nxt.get(path[-1], []):
+            if path.count(n) < HEADER_REP:
+                walk(path + [n])
+    walk(['titl'])
+    return out
+
+
+def header_cases(tab):
+    rows = {}
+    for r in tab['syntax']:
+        rows.setdefault(r['slot'], r)
+    pre_ok = {g['slot'] for g in tab['grammar'] if g['pre']}
+    rot = {}
+
+    def form(slot):
+        """the forms of the slot's keyword in rotation, so that over all paths every form stands in every repetition"""
+        fs = rows[slot]['forms']
+        i = rot.get(slot, 0)
+        rot[slot] = i + 1
+        return fs[i % len(fs)]
+    out = []
+    for pn, path in enumerate(header_paths(tab['grammar'])):
+        hdr = []
+        nel = 0
+        for i, slot in enumerate(path):
+            kw = rows[slot]['kw']
+            if slot == 'unit':
+                hdr.append(['UNIT'] + [str(4 * (k + 1)) for k in range(nel)])
+            elif slot == 'sfac':
+                kinds = form(slot)
+                if all(k == 'word' for k in kinds):
+                    k = min(len(kinds), len(ELEMENTS) - nel - 2) or 1
+                    hdr.append(['SFAC'] + ELEMENTS[nel:nel + k])
+                    nel += k
+                else:
+                    hdr.append(['SFAC', ELEMENTS[nel]] + instantiate('SFAC', kinds)[1:])
+                    nel += 1
+            elif slot == 'disp':
+                ndisp = sum(1 for h in hdr if h[0] == 'DISP')
+                hdr.append(['DISP', ELEMENTS[ndisp % max(nel, 1)]] + instantiate('DISP', form(slot))[1:])
+            elif slot == 'titl':
+                hdr.append(['TITL', 'c02', 'header', 'history', str(pn)])
+            else:
+                hdr.append([kw] + instantiate(kw, form(slot)))
+            # body instructions in front of SFAC, on every third path, behind every slot that allows it
+            if slot in pre_ok and (pn + i) % 3 == 0:
+                hdr.append(list(PRE_INSTR[(pn + i) % len(PRE_INSTR)]))
+        cnt = {}
+        for sl in path:
+            cnt[sl] = cnt.get(sl, 0) + 1
+        hist = ','.join(f'{sl}{cnt[sl]}' for sl in ('symm', 'neut', 'sfac', 'disp') if sl in cnt) + \
+            (',pre' if any(h[0] in ('MORE', 'REM', 'TEMP', 'SIZE') for h in hdr) else '')
+        unit = hdr[-1]
+        c = dict(stream='valid', kw='UNIT', toks=unit[1:], pos='header', header=hdr, hist=hist, nsfac=nel)
+        if pn % 4 == 1:
+            c['via'] = 'file'           # second entry point
+        if pn % 4 == 3:
+            c['via'] = 'second-call'    # on an object that has parsed another header before
+        out.append(c)
+    return out
+
+
+def repeat_cases(valid):
+    """every body instruction (bare and longest form) and FVAR two and three times in a row: the second meets whatever the
+    handler of the first left behind"""
+    pick = {}
+    for c in valid:
+        if c.get('spell') or c.get('kwtext') or c.get('via') or c.get('layout') is not None or c['pos'] not in ('instr', 'fvar'):
+            continue
+        lo, hi = pick.get(c['kw'], (c, c))
+        pick[c['kw']] = (c if len(c['toks']) < len(lo['toks']) else lo, c if len(c['toks']) > len(hi['toks']) else hi)
+    out = []
+    for kw, (lo, hi) in pick.items():
+        for c in ([lo] if lo is hi else [lo, hi]):
+            for n in (2, 3):
+                out.append(dict(c, repeat=n, spell=f'repeated={n}'))
+    return out
+
+
+# ----------------------------------------------------------------------------------------------------------------
+# physical layout of valid lines
+
+LAYOUTS = [
+    ('wrap-mid', dict(wraps=['mid'])),
+    ('wrap-mid|blank-behind-eq', dict(wraps=['mid'], tails=[' '])),
+    ('wrap-mid|tab-behind-eq', dict(wraps=['mid'], tails=['\t'])),
+    ('wrap-last|blanks-behind-eq', dict(wraps=['last'], tails=['   '])),
+    ('wrap-first|blank-tab-behind-eq', dict(wraps=['first'], tails=[' \t '])),
+    ('wrap-mid|comment-behind-eq', dict(wraps=['mid'], tails=['  ! comment'])),
+    ('wrap-mid|eq-in-comment-behind-eq', dict(wraps=['mid'], tails=[' ! a=b ='])),
+    ('wrap-twice|blank-behind-2nd-eq', dict(wraps=['third', 'twothirds'], tails=['', ' '])),
+    ('wrap-twice|tab-behind-1st-eq', dict(wraps=['third', 'twothirds'], tails=['\t', ''], indent=' ')),
+    ('wrap-mid|wide-indent|trailing-blanks', dict(wraps=['mid'], indent=' ' * 12, trail='  ')),
+    ('trailing-blanks', dict(trail='  ')),
+    ('trailing-tab', dict(trail='\t')),
+    ('trailing-comment-ending-in-eq', dict(trail=' ! comment =')),
+    ('single-blank-separators', dict(sep=' ')),
+    ('crlf', dict(crlf=True)),
+    ('crlf|wrap-mid|blank-behind-eq', dict(crlf=True, wraps=['mid'], tails=[' '])),
+]
+TAILS = ['', ' ', '  ', '\t', ' \t', '\t ', '   ', ' !', ' ! c', ' !=', ' ! = =', '!x']
+TRAILS = ['', ' ', '\t', '  \t', ' ! c', ' ! c =', ' !=']
+
+
+def layout_cases(tab, valid, rng, nrandom):
+    out = []
+    # systematic: the longest form of every keyword at its own place, every atom shape — in every layout
+    by_kw = {}
+    for c in valid:
+        if c.get('spell') or c.get('kwtext') or c.get('via') or not c.get('symm', True) or c.get('wrap') or c['pos'] in ('frag', 'header'):
+            continue
+        if c['pos'] not in ('instr', 'atomline') and c['pos'] in BODY_POS:
+            continue
+        if c['pos'] == 'atomline':
+            if 'big' in [classify(t) for t in c['toks'][1:4]]:
+                continue        # (the open finding)
+            by_kw.setdefault(('ATOM', len(c['toks'])), c)
+            continue
+        if c['pos'] == 'tail':
+            continue
+        old = by_kw.get(c['kw'])
+        if old is None or len(c['toks']) > len(old['toks']):
+            by_kw[c['kw']] = c
+    base = [c for c in by_kw.values() if not no_layout([c['kw']])]
+    for c in base:
+        for name, lay in LAYOUTS:
+            if lay.get('wraps') and len(c['toks']) + 1 < (3 if len(lay['wraps']) > 1 else 2):
+                continue        # nothing to wrap
+            out.append(dict(c, layout=lay, lname=name))
+    # the same layouts on EVERY line of the file (sentinel atoms, restraint, HKLF, END, WGHT, Q-peak included)
+    amb = [c for c in base if c['kw'] in ('SADI', 'HKLF', 'SFAC', 'FVAR') or c['pos'] == 'atomline' and len(c['toks']) in (6, 11)]
+    for c in amb:
+        for name, lay in LAYOUTS:
+            out.append(dict(c, layout=lay, lname=name, ambient=True))
+    # random: any valid line, any cut points, any decoration
+    plain = [c for c in valid if not c.get('via') and not c.get('wrap') and c['pos'] not in ('frag', 'tail') and not no_layout([c['kw']])
+             and not (c['pos'] == 'atomline' and 'big' in [classify(t) for t in c['toks'][1:4]])]
+    for _ in range(nrandom):
+        c = rng.choice(plain)
+        n = len(c['toks']) + 1
+        nw = rng.choice([0, 1, 1, 1, 2, 3])
+        wraps = sorted(set(rng.randrange(1, n) for _ in range(nw))) if n > 1 else []
+        lay = dict(wraps=wraps, tails=[rng.choice(TAILS) for _ in wraps], trail=rng.choice(TRAILS), indent=rng.choice([' ', '  ', '    ', ' ' * 9]),
+                   sep=rng.choice([' ', '  ', '   ']), crlf=rng.random() < 0.15)
+        out.append(dict(c, layout=lay, lname='random', ambient=rng.random() < 0.3, **(dict(via='file') if rng.random() < 0.2 else {})))
+    return out
+
+
 def near_cases(rng, valid, n):
     """one-token damage of valid lines: not valid input any more"""
     out = []
-    cand = [c for c in valid if c['pos'] in ('instr', 'atoms', 'atomline') and not c.get('kwtext') and not c.get('via')]
+    cand = [c for c in valid if c['pos'] in ('instr', 'atoms', 'atomline') and not c.get('kwtext') and not c.get('via') and c.get('layout') is None]
     repl = dict(int=['2.5', 'C1', '5E-1'], num=['C1', '-x,', '7', '25E-1'], dnum=['C1'], big=['C1', '0.5', '1e1'], word=['2.5', '3', '1e0'], sym=['C1', '1.5'], enum=['C1', '2'])
     for _ in range(n):
         c = dict(rng.choice(cand))
@@ -663,7 +897,7 @@ def near_cases(rng, valid, n):
 def mutants(rng, valid, n):
     out = []
     alphabet = ' =!_$.,+-0123456789ABCEFHILMNOPRSTUXYZabcxyz\t()/:*<>'
-    plain = [c for c in valid if not c.get('via')]
+    plain = [c for c in valid if not c.get('via') and c.get('layout') is None]
     for _ in range(n):
         base = rng.choice(plain)
         lines = build(base)
@@ -724,7 +958,8 @@ def hostile_cases(valid):
     out = []
     n = 0
     for c in valid:
-        if c.get('spell') or c.get('kwtext') or c.get('via') or c['pos'] in ('pre', 'atoms', 'post', 'frag', 'tail') or not c.get('symm', True):
+        if c.get('spell') or c.get('kwtext') or c.get('via') or c['pos'] in ('pre', 'atoms', 'post', 'frag', 'tail', 'header') or not c.get('symm', True) \
+                or c.get('layout') is not None:
             continue
         nums = [i for i, t in enumerate(c['toks']) if classify(t) in ('int', 'num', 'big', 'dnum')]
         if not nums:
@@ -766,11 +1001,16 @@ def include_mutants(valid):
 
 def run(ctx):
     ctx.rule = ('one case = one instruction line (keyword, concrete tokens, residue suffix) at one position of a by-construction file, '
-                'parsed in quiet, verbose and debug mode; distinct by (keyword text, tokens, position, header variant); non-trivial = the '
+                'parsed in quiet, verbose and debug mode (or one header history / one physical layout of such a line / the line repeated); '
+                'distinct by (keyword text, tokens, position, header variant, header history, layout, repetition); non-trivial = the '
                 'line is dispatched to a branch of _parse_cards other than the final else (it reaches a handler that indexes / converts '
                 'tokens or constructs a card) or is a FRAG block; near/mutant cases: distinct by text')
     ctx.assumptions = ['UNIT carries one number per SFAC element', 'residue numbers within -999..9999', 'DFIX/DANG/SADI carry atom pairs, '
-                       'd > s, d and NCSY DN non-zero', 'no `=` inside TITL/instruction text (continuation handling is C05)',
+                       'd > s, d and NCSY DN non-zero', 'no `=` inside TITL/REM text; `=` as continuation mark (with blanks, tabs or a `!` comment behind it) is '
+                       'generated for every other keyword and for atoms: layout is not content, the expectation is the same',
+                       'continuation lines begin with at least one blank (not a tab)',
+                       'header = a path through the grammar of the specification (Slot.next): TITL CELL ZERR LATT SYMM* NEUT? SFAC+ DISP* UNIT, '
+                       'body instructions allowed in front of SFAC',
                        'REM lines that imitate the residual summary of a .res file are not generated']
     tab = ctx.driver.one(dict(p='C02', op='table'))
     ctx.extra['syntax_table'] = dict(keywords=len(tab['syntax']), forms=sum(len(r['forms']) for r in tab['syntax']), atom_forms=len(tab['atoms']),
@@ -778,7 +1018,11 @@ def run(ctx):
     thorough = ctx.tier == 'thorough' or ctx.escalated
     valid = valid_cases(tab, suffixes=('', '_2', '_TOL', '_*') if thorough else ('', '_2'))
     ctx.exhaustive = True
-    ctx.extra['product'] = 'every keyword x every form of the syntax table x every position x 3 modes (exhaustive in both tiers)'
+    ctx.extra['product'] = ('every keyword x every form of the syntax table x every position x 3 modes; every path through the header grammar with '
+                            'each slot <= %d times; every keyword (longest form) and atom shape x %d physical layouts (exhaustive in both tiers)' % (HEADER_REP, len(LAYOUTS)))
+    valid += repeat_cases(valid)
+    valid += header_cases(tab)
+    valid += layout_cases(tab, valid, ctx.rng, ctx.budget(300, 6000))
     near = near_cases(ctx.rng, valid, ctx.budget(600, 6000))
     mut = mutants(ctx.rng, valid, ctx.budget(1500, 50000))
     cases = valid + near + hostile_cases(valid) + include_mutants(valid) + mut
